@@ -3,12 +3,14 @@ import common as C
 import oracles as O
 import genprog
 from props import _filter as FL
+import pluginstream as PS
 
 PID = 'C02'
 TRUSTED = ['Tier H model coq/Model/{Axis,Filter}.v tied to /repo by vm_compute correspondence on every run (harness/filterstream.py)',
            'the theorem\'s hypothesis is judged on the position the filter tracks; that this equals the file\'s own position is the tracking '
            'part of the simulation invariant (C03/C14) and, on the implementation, the reference-printer oracle of this check',
-           'modelled, not verified: binary64 rounding']
+           'modelled, not verified: binary64 rounding',
+           'plugin layer (hooks, @-command action table and scripts from the settings): `plugin` vm_compute correspondence against the real ExcludeRegionPlugin (harness/pluginstream.py, Model/Plugin.v)']
 ASSUMPTIONS = ['programs issued after homing', 'no G92 X/Y/Z in the proved dialect of the oracle stream (finding D18 breaks tracking; reported as KNOWN-FINDING)']
 
 
@@ -28,11 +30,14 @@ def _variants(ctx, n):
 
 def correspondence(ctx):
     # junk=True: flags, bare codes and M206 home offsets (set, changed, reset) as the code has them -- model and code must agree on them too
-    return FL.correspondence(ctx, PID, dict(addregions=False, junk=True), 50, 1200)
+    r = FL.correspondence(ctx, PID, dict(addregions=False, junk=True), 50, 1200)
+    # the same filter as OctoPrint drives it: through the plugin object's hooks, with the @-command actions (exclusion switched off by the
+    # file itself) and scripts taken from the settings
+    return PS.merge_into(r, ctx, PID.lower() + 'p', 10, 300, extra=[PS.atc_history(ctx.rng) for _ in range(ctx.n(15, 300))])
 
 
 def oracle(ctx, budget=1, replay=None, hints=None):
-    progs = _variants(ctx, 120 * budget)
+    progs = designed() + _variants(ctx, 120 * budget)
     r = FL.oracle(ctx, PID, [O.check_C02], dict(), 0, replay=replay, want_touch=False, extra_progs=progs)
     # search guided by the tracking discrepancy: a stale tracked point, given a region of its own, makes a clear path be filtered
     for p in progs[:60 * budget]:
@@ -61,3 +66,20 @@ def oracle(ctx, budget=1, replay=None, hints=None):
             r['failures'].append(f)
     r['evaluations'] += 1
     return r
+
+
+def designed():
+    """paths that pass a hair's breadth OUTSIDE a region (4e-7 beyond an edge, 3e-7 beyond a radius; integer geometry, millimetres, no offsets,
+    so every comparison the code makes is exact): membership is the closed rectangle / disc, nothing more"""
+    from fractions import Fraction as F
+    R = [('rect', 'a', F(10), F(10), F(20), F(20)), ('circ', 'b', F(50), F(50), F(10))]
+    out = []
+    for pts in ([('20.0000004', '15'), ('15', '9.9999996'), ('9.9999996', '9.9999996'), ('20.0000004', '20.0000004')],
+                [('60.0000003', '50'), ('50', '39.9999997'), ('57.0710679', '57.0710679'), ('44', '41.9999997')]):
+        lines = ['G28', 'G1 X5 Y5 Z0.3 F3000', 'G1 X6 Y5 E0.5']
+        e = 0.5
+        for (x, y) in pts:
+            e += 0.25
+            lines += ['G1 X%s Y%s E%g' % (x, y, e), 'G1 X30 Y30']
+        out.append(dict(g90e=False, enter=None, exit=None, ext=dict(genprog.DEFAULT_EXT), regions=R, events=[('cmd', l) for l in lines], style='none', alen='1'))
+    return out
